@@ -717,6 +717,37 @@ func searchTable(rng *hx.Rng, r *tbl.Raw, withOOR bool) {
 			fail(site, cl, r, q, got, want)
 		}
 	}
+	// the same queries on the same box objects again, in decreasing and in shuffled order: an answer must not depend
+	// on which queries came before (lookup cursors / caches inside the boxes)
+	order := make([]int, 0, 2*len(qs))
+	for i := len(qs) - 1; i >= 0; i-- {
+		order = append(order, i)
+	}
+	perm := make([]int, len(qs))
+	for i := range perm {
+		perm[i] = i
+	}
+	for i := len(perm) - 1; i > 0; i-- {
+		j := rng.Intn(i + 1)
+		perm[i], perm[j] = perm[j], perm[i]
+	}
+	order = append(order, perm...)
+	for _, i := range order {
+		q := qs[i]
+		if q == "ce" || (strings.HasPrefix(q, "st:") && zeroMid) {
+			continue
+		}
+		got := query(bx, q)
+		want := expected(r, x, q)
+		evals++
+		if q == "fs" {
+			got = strings.Split(strings.TrimPrefix(got, "ok/"), "/")[0]
+		}
+		if got != want {
+			fail(siteOf[strings.Split(q, ":")[0]], classify(got, want)+"-order-dependent", r, q+" (asked again after other queries)", got, want)
+			break
+		}
+	}
 	// copied sample data: bytes of samples a..b, in memory and lazily with several work buffers (copydata.go)
 	searchCopy(rng, r, x, bx)
 	if withOOR {
